@@ -29,7 +29,7 @@ RULE = ('case = batch of generated values, one real task per value (JSONData dic
         'equality (bool!=int, float bits, dtype, shape, order) + file hashes unchanged by load. non-trivial = value is not a flat '
         'scalar/empty container (depth>=2, or boundary number, or non-ASCII text, or >=2-d / non-default dtype array, or >=11 list items); '
         'distinct = typed canonical digest of (kind, value)')
-REQUIRED = ['values', 'name_mode_cases', 'failed_first_attempts', 'long_sequences', 'forced_type_morphs', 'loaded_arrays_mutated_in_place', 'loaded_json_values_mutated_in_place', 'json_values', 'numpy_values', 'pandas_values', 'generated_values', 'lazy_values', 'listnp_values', 'dir_values',
+REQUIRED = ['values', 'name_mode_cases', 'task_classes_derived_from_a_task_of_another_kind', 'failed_first_attempts', 'long_sequences', 'forced_type_morphs', 'loaded_arrays_mutated_in_place', 'loaded_json_values_mutated_in_place', 'json_values', 'numpy_values', 'pandas_values', 'generated_values', 'lazy_values', 'listnp_values', 'dir_values',
             'fresh_chain_loads', 'fresh_process_loads', 'file_hash_checks', 'falsy_top_level', 'zero_d_arrays', 'lists_over_10_arrays']
 ASSUMPTIONS = ['domain per the property statement: NaN/inf in JSON, tuples, non-string keys, lone surrogates, integers outside 64 bit, '
                'object/structured arrays are outside it and not generated',
@@ -309,27 +309,27 @@ def _value(i):
 
 CLASS_TEMPLATES = {
     'json': '''
-class T{i}(Task):
+class T{i}({base}):
     def run(self) -> {pytype}:
         return _value({i})
 ''',
     'numpy': '''
-class T{i}(Task):
+class T{i}({base}):
     def run(self) -> np.ndarray:
         return _value({i})
 ''',
     'pandas': '''
-class T{i}(Task):
+class T{i}({base}):
     def run(self) -> {pytype}:
         return _value({i})
 ''',
     'generated': '''
-class T{i}(Task):
+class T{i}({base}):
     def run(self) -> Generator:
         yield from _value({i})
 ''',
     'lazy': '''
-class T{i}(Task):
+class T{i}({base}):
     class Meta:
         data_class = GeneratedDataLazy
     def run(self) -> {pytype}:
@@ -337,14 +337,14 @@ class T{i}(Task):
         return {lazy_expr}
 ''',
     'listnp': '''
-class T{i}(Task):
+class T{i}({base}):
     class Meta:
         data_class = ListOfNumpyData
     def run(self) -> list:
         return _value({i})
 ''',
     'dir': '''
-class T{i}(Task):
+class T{i}({base}):
     def run(self) -> DirData:
         d = self.get_data_object()
         for name, content in _value({i}).items():
@@ -418,7 +418,8 @@ def run_case(case) -> CaseResult:
     tmp = Path(tempfile.mkdtemp(prefix='c06-'))
     moddir = tmp / 'mod'
     moddir.mkdir()
-    data_dir = tmp / 'data'
+    # (directory names that mean something to glob / shells / format strings are ordinary names)
+    data_dir = tmp / rng.choice(['data', 'data', 'runs[2026]', 'a b', 'dätä', 'x*y', 'q?', '{curly}', 'per%cent'])
     lazy_forms = [rng.choice(['list', 'callable', 'generator']) for _ in kinds]
     classes = []
     for i, (k, v) in enumerate(zip(kinds, values)):
@@ -426,7 +427,13 @@ def run_case(case) -> CaseResult:
         pt = pytype_of(k, v, rng)
         if k == 'lazy':
             pt = {'list': 'list', 'callable': 'object', 'generator': 'Generator'}[lazy_forms[i]]
-        classes.append(CLASS_TEMPLATES[k].format(i=i, pytype=pt, lazy_expr=lazy_expr))
+        # now and then a task class DERIVED from an earlier task class that stores another kind of value (the subclass declares its own return type)
+        base = 'Task'
+        earlier = [j for j in range(i) if kinds[j] != k and kinds[j] in ('json', 'numpy', 'pandas') and k in ('json', 'numpy', 'pandas', 'generated')]
+        if earlier and rng.random() < 0.15:
+            base = f'T{rng.choice(earlier)}'
+            res.count('task_classes_derived_from_a_task_of_another_kind')
+        classes.append(CLASS_TEMPLATES[k].format(i=i, pytype=pt, lazy_expr=lazy_expr, base=base))
     (moddir / 'c06mod.py').write_text(MODULE_TEMPLATE.format(classes=''.join(classes)))
     sys.path.insert(0, str(moddir))
     sys.modules.pop('c06mod', None)
